@@ -49,6 +49,8 @@ func c13ConfigPath(ctx *Ctx, idx int) {
 		if c.CfgMax != nil {
 			fmt.Fprintf(&sb, "    maxPwm: %d\n", *c.CfgMax)
 		}
+		// the control algorithm in one of the supported spellings (the deprecated controlLoop among them)
+		sb.WriteString(pick(r, "", "", "    controlAlgorithm: direct\n", "    controlLoop:\n      p: 0.3\n      i: 0.02\n      d: 0.005\n", "    controlAlgorithm:\n      pid:\n        p: 0.3\n        i: 0.02\n        d: 0.005\n"))
 		text := sb.String()
 		history = append(history, text)
 		cfgPath := filepath.Join(dir, fmt.Sprintf("fan2go-%d.yaml", load))
